@@ -330,6 +330,9 @@ func replayC05(c *h.Ctx, cs h.Case) {
 		// floats were given as float64 in the matrix: decode number-looking values both ways
 	}
 	doc := h.Decode(orDefault(cs.Doc, "null"), cs.UseNum)
+	if cs.Kind == "shared" {
+		doc, vars = c05SharedDoc(cs.Extra["doc"])
+	}
 	subvals := map[string]bool{}
 	subValueSet(doc, subvals)
 	for _, v := range vars {
@@ -346,6 +349,31 @@ func replayC05(c *h.Ctx, cs h.Case) {
 			universal(c, e, p, cs.Path, doc, h.Opts{Vars: vars, Silent: cs.Silent, TZ: cs.TZ, Zone: h.ParseZone(cs.Zone)}, cs, subvals)
 		}
 	}
+}
+
+var c05SharedNames = []string{"people", "table", "rows", "var-and-doc", "tree"}
+
+var c05SharedPaths = []string{"$.**", "$.**{2 to last}", "$.**{1 to 3}", "$.**{last}", `$.** ? (@.city == "x")`, "$.**.city", "$.**.keyvalue()", "$.*.**", "$[*].**", "$.**[*]", "$.** == 1", "exists($.**.zip)", "$x.**", "$x.**{2 to last}.city", "$.**{1 to 2}.**{1 to 2}", "$.** ? (exists(@.** ? (@ == 1)))", "$.**.type()", "$.**.size()", "-$.**.zip", `$.** like_regex "^x"`, "($.** == $x.**)", "$.**{0 to last}.*"}
+
+// c05SharedDoc builds, by name, a value with shared sub-values and the
+// variables that go with it.
+func c05SharedDoc(name string) (any, map[string]any) {
+	addr := map[string]any{"city": "x", "zip": 1.0, "geo": []any{1.0, 2.0}}
+	row := []any{1.0, map[string]any{"city": "x"}, []any{2.0, 3.0}, "x"}
+	switch name {
+	case "people":
+		return map[string]any{"home": addr, "work": addr, "all": []any{addr, addr}, "n": map[string]any{"deep": addr}}, map[string]any{"x": []any{addr, addr}}
+	case "table":
+		return []any{row, row[:2], row[1:3], row}, map[string]any{"x": row[:3]}
+	case "rows":
+		inner := []any{addr, row}
+		return map[string]any{"a": inner, "b": inner, "c": []any{inner, inner}}, map[string]any{"x": map[string]any{"p": inner, "q": inner}}
+	case "var-and-doc":
+		return map[string]any{"a": addr, "b": []any{row}}, map[string]any{"x": map[string]any{"a": addr, "r": row, "again": addr}}
+	}
+	// the control: the same shape without any sharing
+	a2 := map[string]any{"city": "x", "zip": 1.0, "geo": []any{1.0, 2.0}}
+	return map[string]any{"home": addr, "work": a2}, map[string]any{"x": []any{map[string]any{"city": "x"}}}
 }
 
 func orDefault(s, d string) string {
@@ -586,6 +614,41 @@ func runC05(c *h.Ctx) {
 							default:
 								c.Held("class")
 							}
+						}
+					}
+				}
+			}
+		}
+	}
+	// (b3) values in which one container is a member of two containers (the
+	// same map under two keys, the same array twice in an array, two slices of
+	// one backing array): ordinary values of the documented types, which
+	// json.Unmarshal never produces
+	{
+		k := 0
+		for _, name := range c05SharedNames {
+			doc, vars := c05SharedDoc(name)
+			subvals := map[string]bool{}
+			subValueSet(doc, subvals)
+			for _, v := range vars {
+				subValueSet(v, subvals)
+			}
+			for _, pt := range c05SharedPaths {
+				for _, mode := range []string{"", "strict "} {
+					k++
+					if !c.Mine(k) {
+						continue
+					}
+					p := cachedPath(mode + pt)
+					if p == nil {
+						c.Count("gen.unparsable", 1)
+						continue
+					}
+					for _, silent := range []bool{false, true} {
+						cs := h.Case{Kind: "shared", Path: mode + pt, Silent: silent, Extra: map[string]string{"doc": name}}
+						for _, e := range h.Entries {
+							c.Journal("shared " + name + " " + cs.Path)
+							universal(c, e, p, mode+pt, doc, h.Opts{Vars: vars, Silent: silent}, cs, subvals)
 						}
 					}
 				}
